@@ -259,9 +259,19 @@ func (c *cliFront) plan(h *heapRun, o *obj, st Step) (*cliCall, string) {
 		}
 		switch st.Op {
 		case "RemoveGapSites":
-			argv = append(argv, "--char", "GAP")
+			argv = append(argv, "--char", []string{"GAP", "-"}[(p+q)%2])
+			// flags that are documented as having no effect in gap mode
+			if (p+2*q)%3 == 0 {
+				argv = append(argv, "--reverse")
+			}
+			if (2*p+q)%3 == 0 {
+				argv = append(argv, "--ignore-n", "--ignore-case")
+			}
 		case "RemoveMajorityCharacterSites":
 			argv = append(argv, "--char", "MAJ")
+			if (p+2*q)%3 == 0 {
+				argv = append(argv, "--reverse", "--ignore-case") // no effect in majority mode either
+			}
 			if ab(a, "igaps") {
 				argv = append(argv, "--ignore-gaps")
 			}
